@@ -32,8 +32,10 @@ Fixpoint decode_tree (fuel : nat) (l : list Z) : option (causal * list Z) :=
                 | S k', a :: b :: w :: t => ((Z.to_nat a, Z.to_nat b), Z.to_N w) :: edges t k'
                 | _, _ => []
                 end in
+            (* root field: -1 none | r | r + 1000 * (1 + r0) = node r0 < r was added as a root EARLIER (re-rooting); the last
+               add_root_causaloid decides, so the root is r mod 1000 *)
             match skipn (3 * k) l1 with
-            | r :: l2 => Some (GraphC (Z.to_nat id) cs (edges ez k) (if (r <? 0)%Z then None else Some (Z.to_nat r)), l2)
+            | r :: l2 => Some (GraphC (Z.to_nat id) cs (edges ez k) (if (r <? 0)%Z then None else Some (Z.to_nat (r mod 1000)%Z)), l2)
             | [] => None
             end
         | _ => None
